@@ -202,6 +202,10 @@ def run(ctx):
     ctx.note("rule", "case = one polynomial Hamiltonian (degree<=5 quick / <=8 thorough, random terms incl. q.p coupling) or one twin execution "
                      "(program variant x initial state x grid/tolerance x event x direction); event cases non-trivial when the event is hit")
     guarded(ctx, "twins", twins, ctx, ctx.pick(3, 40), ctx.pick(2, 4))
+    variants = sorted({c.split(":", 1)[1] for c in ctx.cases if c.startswith("twin:") or c.startswith("twin-event:") or c.startswith("cm-copy:")})
+    ctx.note("coverage_extra", {"programs": len(variants),
+                                "disagreements_checked": int(sum(n for c, n in ctx.evals.items() if c[:2] in ("T:", "E:", "C:"))),
+                                "program_variants": variants[:80]})
     ctx.require("R:rhs == (dH/dP, -dH/dQ) of the polynomial", 20 if ctx.nshards == 1 else 5)
     for tag in ("fixed4", "fixed6", "fixed8", "adaptive_locked5", "adaptive_locked8"):
         ctx.require(f"T:trajectory of the Hamiltonian path == generic path[{tag}]", 2 if ctx.nshards == 1 else 1)
